@@ -34,44 +34,23 @@ def forms_arg(r, cfg):
     return [fs[0]]
 
 
-F30_PREFIX = "C04:F30:explicit span ids lose to the generated ids in ThreadLocalCtxt"
-
-
-def f30_registered():
-    """Explicit-id span nodes deviate on the tree as it is (finding F30).  The configurations that
-    contain them are used only when known_findings.json has an open finding whose signature matches
-    the classification prefix; otherwise the check would be red on a known, reported defect."""
-    import re
-    for kf in vlib.load_known_findings():
-        if kf.get("status") == "open" and kf.get("property") == "C04":
-            try:
-                if re.search(kf["signature"], F30_PREFIX + "; context form value; dropped x"):
-                    return True
-            except re.error:
-                pass
-    return False
-
-
 def run(ctx):
-    x = "x" if f30_registered() else ""
-    ctx.cov["explicit_ids"] = ("included (configurations *x.cfg), deviations classified as F30" if x
-                               else "excluded: F30 not registered as an open finding")
     if ctx.quick:
         configs = [
             {"cfg": "Span_quick.cfg", "workers": 4, "actions": ACTIONS + TASKS + LAZY + CANCEL},
             {"cfg": "Span_quick2.cfg", "workers": 4, "actions": ACTIONS + ["Incoming"]},
-            {"cfg": "Span_quick3%s.cfg" % x, "workers": 4, "actions": ACTIONS + ["Incoming"]},
+            {"cfg": "Span_quick3.cfg", "workers": 4, "actions": ACTIONS + ["Incoming"]},
             {"cfg": "Span_quick4.cfg", "workers": 4, "actions": ACTIONS + TASKS + LAZY},
         ]
     else:
         configs = [
             {"cfg": "Span_thorough.cfg", "workers": 10, "replay": False,
              "actions": ACTIONS + TASKS + LAZY + ["Incoming"]},
-            {"cfg": "Span_thorough2%s.cfg" % x, "workers": 10, "replay": False, "actions": ACTIONS + ["Incoming"]},
+            {"cfg": "Span_thorough2.cfg", "workers": 10, "replay": False, "actions": ACTIONS + ["Incoming"]},
             {"cfg": "Span_thorough_r1.cfg", "workers": 6, "actions": ACTIONS + TASKS + LAZY + ["Incoming"]},
-            {"cfg": "Span_thorough_r2%s.cfg" % x, "workers": 6, "actions": ACTIONS + ["Incoming"]},
+            {"cfg": "Span_thorough_r2.cfg", "workers": 6, "actions": ACTIONS + ["Incoming"]},
             {"cfg": "Span_thorough_r3.cfg", "workers": 6, "actions": ACTIONS + TASKS + LAZY + ["Incoming"]},
-            {"cfg": "Span_thorough_sim%s.cfg" % x, "workers": 4, "simulate": (20000, 18)},
+            {"cfg": "Span_thorough_sim.cfg", "workers": 4, "simulate": (20000, 18)},
         ]
     if not ctx.quick and ctx.replay_case() is None:
         # finding F29 at model level: the model of the code as it is must fail CancelCarriesOwnIds
@@ -85,7 +64,7 @@ def run(ctx):
                     label="Span_f30")
         if r.violated != "ExplicitIdsWin":
             raise vlib.ToolError("Span_f30.cfg: expected ExplicitIdsWin to be violated by the model "
-                                 "of the code as it is, got %s" % r.violated)
+                                 "of the code before the repair of F30, got %s" % r.violated)
         ctx.cov["f30_model"] = {"cfg": "Span_f30.cfg", "violated": r.violated}
     span_common.run_configs(ctx, "MCSpan", "c04_span", configs, ACTIONS, "C04",
                             harness_args=forms_arg)
